@@ -42,6 +42,27 @@ def make_schedule(nslots, faults, path, maxlen=30):
             "steps": sum(len(w) for w in walks), "model_states": stats["distinct"]}
 
 
+def capacity_edge_schedule(path, faults):
+    """Integers inserted when the stream is within a few bytes of its capacity: sign and digits are two appends in the
+    code, so 'the digits no longer fit' is hit for every family, digit count and distance to the capacity - with the
+    growth succeeding (C16) or failing (C19)."""
+    fams = [(0, 9), (1, 9), (2, 18), (3, 18), (4, 18), (5, 18)]       # family index, max decimal digits used
+    with open(path, "w") as f:
+        for cap in (256, 512, 1024):
+            for fam, maxd in fams:
+                for d in (1, 2, 3, 7, 9, 18):
+                    if d > maxd:
+                        continue
+                    for neg in ((True, False) if fam in (0, 2, 4) else (False,)):
+                        v = 10 ** (d - 1) + 7 % (10 ** (d - 1) if d > 1 else 1)
+                        need = d + (1 if neg else 0)
+                        for delta in (-2, -1, 0, 1):
+                            pre = cap - need - delta
+                            f.write("reset\nconstruct 1 0 0\nappend 1 0 %d\n" % pre)
+                            f.write("%sinsint 1 %d %d\n" % ("fault " if faults else "", fam, -v if neg else v))
+                            f.write("tostring 1 0 0\nappendchar 1 0 3\ndestroy 1 0 0\n")
+
+
 class StreamCheck(Check):
     technique = ("TLA+ stream-pool specification (Stream.tla) model-checked by TLC; the statement-level model of string_stream "
                  "(StreamImpl.tla: explicit memory cells, doubling loop, moves, failing new) model-checked against content, ownership "
@@ -123,6 +144,9 @@ class C16(StreamCheck):
     def jobs(self, tier, seed):
         e = vlib.build("exec_stream")
         J = sched_jobs(self, tier, False, "c16")
+        cs = os.path.join(vlib.OUT, "sched", "stream-capedge-%d.txt" % os.getpid())
+        capacity_edge_schedule(cs, False)
+        J += [vlib.Job("c16-capedge-%d" % i, e, ["--schedule", cs, "--shard", "%d/2" % i], "TraceStream") for i in range(2)]
         for i in range(8 if tier == "quick" else 32):
             J.append(vlib.Job("c16-rand-%d" % i, e, ["--random", "300" if tier == "quick" else "3000", "--seed", str(seed * 100 + i)], "TraceStream"))
         for j in J:
@@ -134,6 +158,9 @@ def fault_jobs(check, tier, seed):
     """Stream part of C19: every growing append of the stream model with its allocation failing, plus random walks with failures."""
     e = vlib.build("exec_stream")
     J = sched_jobs(check, tier, True, "c19-strm")
+    cs = os.path.join(vlib.OUT, "sched", "stream-capedge-f-%d.txt" % os.getpid())
+    capacity_edge_schedule(cs, True)
+    J += [vlib.Job("c19-strm-capedge-%d" % i, e, ["--schedule", cs, "--shard", "%d/2" % i], "TraceStream") for i in range(2)]
     for i in range(4 if tier == "quick" else 16):
         J.append(vlib.Job("c19-strmrand-%d" % i, e, ["--random", "300" if tier == "quick" else "3000", "--faults",
                                                       "--seed", str(seed * 100 + 70 + i)], "TraceStream"))
